@@ -71,8 +71,12 @@ def gen_template(rng, i):
             nm = g.fresh("W")
             p = g.fresh(rng.choice(["U", "arr", "mat"]))
             rr, cc = rng.randint(1, 3), rng.randint(1, 3)
+            if rng.random() < 0.3:
+                rr, cc = rng.choice([(1, 12), (11, 2), (12, 12), (10, 11), (2, 21), (13, 1), (9, 10)])      # indices of two digits
             arrays[p] = (rr, cc)
             lines.append("float array %s[%d, %d] =\n    {%s}" % (nm, rr, cc, p))
+            if rr * cc > 9:
+                lines.append("Rgate(%s[%d], %s[%d] + %s[0]) | 0" % (nm, rr * cc - 1, nm, rr * cc - 2, nm))
             g.vars[nm] = ("array", "float", rr, cc, [None] * (rr * cc))
         elif r < 0.4 and rng.random() < 0.3:
             # parameters spelt like p-array names (p0, p12) are ordinary parameters outside tdm programs
